@@ -562,6 +562,21 @@ func run(p Pkt) vkit.Result {
 	if d := diff(want, fieldsE(m3)); d != "" {
 		return vkit.Failf("decode(encode(v)) != v:%s", d)
 	}
+	// (5) the bytes of a packet are a function of that packet alone: whatever was encoded just before (same size and
+	// type, other flags / ids / contents - the encoder re-uses pooled buffers), the encoding is the same again
+	for vi, q := range variants(p) {
+		var bq, again bytes.Buffer
+		var ref bytes.Buffer
+		if _, err := toEmitter(q).EncodeTo(&bq); err != nil {
+			return vkit.Failf("emitter refuses to encode variant %d of the packet: %v", vi, err)
+		}
+		if err := toPaho(q).Write(&ref); err == nil && !bytes.Equal(bq.Bytes(), ref.Bytes()) {
+			return vkit.Failf("a packet encoded right after another one of the same type and size (variant %d: %+v after %+v) differs from the independent encoding: first bytes % x vs % x", vi, head(q), head(p), bq.Bytes()[:min(4, bq.Len())], ref.Bytes()[:min(4, ref.Len())])
+		}
+		if _, err := toEmitter(p).EncodeTo(&again); err != nil || !bytes.Equal(again.Bytes(), rawE) {
+			return vkit.Failf("the same packet encodes differently after another packet of the same type and size was encoded (variant %d): first bytes % x, before % x", vi, again.Bytes()[:min(4, again.Len())], rawE[:min(4, len(rawE))])
+		}
+	}
 	labels := []string{fmt.Sprintf("type-%02d", p.T), fmt.Sprintf("remlen-bytes-%d", len(rl))}
 	for _, b := range []int{0, 127, 128, 16383, 16384} {
 		if body == b {
@@ -570,6 +585,41 @@ func run(p Pkt) vkit.Result {
 	}
 	nontrivial := len(rl) >= 2 || p.Dup || p.Retain || p.QoS > 0 || p.UF || p.PF || p.WF || p.CS || p.RC != 0
 	return vkit.Result{NonTrivial: nontrivial, Labels: labels}
+}
+
+// variants: packets of the same type and the same encoded size that differ in flags, ids or contents.
+func variants(p Pkt) []Pkt {
+	var out []Pkt
+	switch p.T {
+	case 3:
+		a, b, c := p, p, p
+		a.Retain = !p.Retain
+		b.Dup = !p.Dup
+		c.Topic.Fill, c.Payload.Fill = p.Topic.Fill+1, p.Payload.Fill+1
+		out = append(out, a, b, c)
+		if p.QoS > 0 {
+			d := p
+			d.QoS, d.MID = 3-p.QoS, p.MID^0x0101
+			out = append(out, d)
+		}
+	case 2:
+		a := p
+		a.RC = (p.RC + 1) % 6
+		out = append(out, a)
+	case 4, 5, 6, 7, 11:
+		a := p
+		a.MID = p.MID ^ 0x0101
+		out = append(out, a)
+	case 1:
+		a := p
+		a.CS, a.KA = !p.CS, p.KA^0x0101
+		out = append(out, a)
+	}
+	return out
+}
+
+func head(p Pkt) string {
+	return fmt.Sprintf("{type %d dup %v retain %v qos %d mid %d}", p.T, p.Dup, p.Retain, p.QoS, p.MID)
 }
 
 func TestCodecDifferential(t *testing.T) { vkit.Check(t, genPkt, run) }
